@@ -55,6 +55,9 @@ def gen_list_field(rng, kind, name):
 
 def run(ctx):
     mod = extract.load(MOD)
+    # the containers the edits are built on - a list view keeps the tokens of the field in a LinkedList (_token_list) and edits it with append / insert / remove_node - are verified from the real AST of debian._util (same contracts as C09)
+    from props import C09 as _c09
+    _c09.verify_ordering_machinery(ctx)
     import debian._deb822_repro as repro
     for q in ("Deb822ParsedTokenList.append_value", "Deb822ParsedTokenList.append_separator", "Deb822ParsedTokenList.replace",
               "Deb822ParsedTokenList.remove", "Deb822ParsedTokenList._remove_node", "Deb822ParsedTokenList._update_field",
@@ -166,7 +169,10 @@ def run(ctx):
         t.case(key=(ftext, kind, str(ops)), sample={"field": ftext, "kind": kind, "operations": ops} if len(ops) == 2 else None)
     t.done()
     ctx.level = "other"
-    ctx.explanation = "BOUNDED ONLY in this revision (see module docstring)."
+    ctx.explanation = ("PROVED from the real AST of debian._util (same contracts as C09): the LinkedList / OrderedSet operations "
+                       "underneath - a list view keeps the tokens of the field in a LinkedList (_token_list) and edits it with append / insert / remove_node - keep their representation invariant and act on the abstract sequence as list insert / "
+                       "delete / move. NOT proved: the element and token classes of _deb822_repro themselves - BOUNDED part (see module "
+                       "docstring).")
     ctx.assumptions += ["list fields have at least one value at all times (the library refuses to view or write a field without content): emptying a list is outside the domain"]
 
 
